@@ -26,11 +26,12 @@ Definition same_set (a b : list nat) : bool := subsetb a b && subsetb b a.
 Definition assert_placement (d : device) (c : circ) : bool :=
   (cn c =? length (dnodes d)) && same_set (cwires c) (dnodes d).
 
-(* FAITHFUL: a measurement on exactly two qubits is treated like a two-qubit gate *)
+(* faithful to the source: gates on more than two qubits are refused unless they are measurements;
+   two-qubit gates other than measurements must sit on an edge (through the wire names) *)
 Definition assert_connectivity (d : device) (c : circ) : bool :=
   forallb (fun g =>
     if (2 <? nq g) && negb (is_meas g) then false
-    else if nq g =? 2
+    else if (nq g =? 2) && negb (is_meas g)
          then match gqs g with
               | [a; b] => has_edge (dedges d) (nth a (cwires c) 0) (nth b (cwires c) 0)
               | _ => false
